@@ -79,12 +79,14 @@ ApplyScroll(d, sg) ==
 
 WellFormed(d, sg) ==
     CASE sg.t = "mode"   -> sg.th >= 1 /\ sg.tw >= 1 /\ sg.ph >= sg.th /\ sg.pw >= sg.tw
-      [] sg.t = "update" -> d.th >= 1 /\ UpdateWellFormed(d, sg)
+      [] sg.t = "update" -> \* (an update clipped to nothing - no columns or no rows, empty sprite - is a no-op)
+                            IF UpdH(sg) = 0 \/ UpdW(sg) = 0 THEN sg.sw = 0 \/ sg.sh = 0
+                            ELSE d.th >= 1 /\ UpdateWellFormed(d, sg)
       [] sg.t = "clear"  -> RowsWellFormed(d, sg.a, sg.b)
       [] sg.t = "scroll" -> RowsWellFormed(d, sg.a, sg.b) /\ sg.dir \in {-1, 1}
 Apply(d, sg) ==
     CASE sg.t = "mode"   -> ApplyMode(d, sg)
-      [] sg.t = "update" -> ApplyUpdate(d, sg)
+      [] sg.t = "update" -> IF UpdH(sg) = 0 \/ UpdW(sg) = 0 THEN d ELSE ApplyUpdate(d, sg)
       [] sg.t = "clear"  -> ApplyClear(d, sg)
       [] sg.t = "scroll" -> ApplyScroll(d, sg)
 
